@@ -24,7 +24,8 @@ EVIDENCE = dict(
          "attached MetaModule next to neighbours and copies of its embedded project, failed loads followed by assignments that "
          "must still be refused, failures while building independent objects. "
          "non-trivial = every mutate event, and heap events with at least 3 cells per root."
-         " Construction recipes (a MultiCtl driving un-updated user-defined controllers and reflecting, a macro over enumerations, a Sampler with extended envelopes, fresh objects) are evaluated at the start and at the very end of the run and must agree; a child interpreter keeps 40 loaded MetaModules alive, collects garbage, builds 1000 projects at once and turns every Amplifier knob in each.",
+         " Construction recipes (a MultiCtl driving un-updated user-defined controllers and reflecting, a macro over enumerations, a Sampler with extended envelopes, fresh objects) are evaluated at the start and at the very end of the run and must agree; a child interpreter keeps 40 loaded MetaModules alive, collects garbage, builds 1000 projects at once and turns every Amplifier knob in each."
+         " A project whose MultiCtl drives an Amplifier and whose MetaModule hears an embedded controller is copied by deepcopy / pickle and driven in both directions.",
     explanation="two layers: object identity of mutable containers (heap) and observable state/bytes (value)")
 
 SKIP_TYPES = None
